@@ -29,7 +29,7 @@ NPS = [None, None, "Radius", "KNearest", "LSHNearest", "Clusters"]
 @st.composite
 def plan_st(draw, tier):
     det_only = draw(st.integers(0, 3)) == 0     # general floats are only sound with deterministic policies
-    cfg = draw(gen.config_st(metrics=gen.SAFE_METRICS, nps=NPS, arm_kinds=("int", "str", "float", "mix"), max_arms=4, deterministic=det_only,
+    cfg = draw(gen.config_st(many_arms_ok=True, metrics=gen.SAFE_METRICS, nps=NPS, arm_kinds=("int", "str", "float", "mix"), max_arms=4, deterministic=det_only,
                              with_binarizer=True, scale_ok=False, defaults_ok=True,
                              n_jobs_choices=(1, 1, 1, 1, 1, 1, 2)))
     fam = None
